@@ -495,3 +495,76 @@ mutant('H4-last-debit-kept', ['C13'], [
 mutant('H4-root-transfer-not-excluded', ['C13'], [
     (RS, "            if root_value_pending && is_root_value_transfer(entry, tx) {", "            if false && root_value_pending && is_root_value_transfer(entry, tx) {"),
 ], ['|H4|'])
+
+CF = 'src/config.rs'
+PC = 'src/precompile.rs'
+mutant('G1-min-parallel-affects-worker-cfg', ['C06'], [
+    (S, "                        cfg.disable_nonce_check = true;\n", "                        cfg.disable_nonce_check = self.block_size >= self.config.min_parallel_txs;\n"),
+], ['|S1|', '|G1|'])
+mutant('G2-fallback-rebases-planner-txid', ['C06', 'C13'], [
+    (FB, "let reserve_mode = ReserveMode::from_planner(txid, self.reserve_planner.as_deref());", "let reserve_mode = ReserveMode::from_planner(txid - start, self.reserve_planner.as_deref());"),
+], ['|G2|'])
+mutant('G2-fallback-ignores-forbid-create', ['C06', 'C12'], [
+    (FB, "                self.config.delegated_safety.forbid_delegated_create,\n            );", "                false,\n            );"),
+], ['|G2|'])
+mutant('G3-decision-on-elapsed-time', ['C06'], [
+    (S, "            if commit_idx > previous_commit_idx {\n                thread::yield_now();", "            if commit_idx > previous_commit_idx && Instant::now().elapsed() < STALL_TIMEOUT {\n                thread::yield_now();"),
+], ['|G3|'])
+mutant('G3-env-read-in-scheduler', ['C06'], [
+    (S, "        if self.config.force_sequential || self.block_size < self.config.min_parallel_txs {", "        if self.config.force_sequential || self.block_size < self.config.min_parallel_txs || std::env::var(\"GREVM_SEQ\").is_ok() {"),
+], ['|G3|', '|G1|'])
+mutant('G1-concurrency-level-in-path-selection', ['C06'], [
+    (S, "        if self.config.force_sequential || self.block_size < self.config.min_parallel_txs {", "        if self.config.force_sequential || self.block_size < self.config.min_parallel_txs.max(concurrency_level) {"),
+], ['|G1|'])
+mutant('Q3-policy-not-normalised', ['C06', 'C12'], [
+    (S, "        config.delegated_safety = config.delegated_safety.for_spec(cfg.spec);\n", ""),
+], ['|Q3|'])
+benign('B-timing-metric-in-new-place', ['C06', 'C02'], [
+    (S, "        let tx_env = self.txs[txid].clone();\n", "        let attempt_start = Instant::now();\n        let tx_env = self.txs[txid].clone();\n"),
+    (S, "        self.scheduler_ctx.executed(txid);\n", "        self.metrics.record_commit_time(attempt_start.elapsed());\n        self.scheduler_ctx.executed(txid);\n"),
+])
+mutant('P2-sstore-without-ensure-mutable', ['C11'], [
+    (PC, "        self.ensure_mutable()?;\n        match self.internals.sstore(address, key, value) {", "        self.ensure_healthy()?;\n        match self.internals.sstore(address, key, value) {"),
+], ['|P2|'])
+mutant('P2-static-check-after-load', ['C11'], [
+    (PC, "        self.ensure_mutable()?;\n        let error = match self.internals.load_account_mut(address) {", "        let error = match self.internals.load_account_mut(address) {"),
+], ['|P2|'])
+mutant('P3-fault-not-enforced-by-adapter', ['C11'], [
+    (PC, "            let result = input.state.take_fault().map_or(result, Err);\n", "            let _ = input.state.take_fault();\n"),
+], ['|P3|'])
+mutant('P3-halt-becomes-fatal', ['C11'], [
+    (PC, "                Err(ParallelPrecompileError::Halt(reason)) => {\n                    Ok(PrecompileOutput::halt(reason, reservoir))\n                }", "                Err(ParallelPrecompileError::Halt(reason)) => {\n                    Err(PrecompileError::Fatal(reason.to_string()))\n                }"),
+], ['|P3|'])
+mutant('P3-adapter-uses-input-cache', ['C11'], [
+    (PC, "        DynPrecompile::new_stateful(id, move |input| {", "        DynPrecompile::new(id, move |input| {"),
+], ['|P3|'])
+mutant('P1-internals-made-public', ['C11'], [
+    (PC, "pub struct ParallelPrecompileState<'a> {\n    internals: EvmInternals<'a>,", "pub struct ParallelPrecompileState<'a> {\n    pub internals: EvmInternals<'a>,"),
+], ['|P1|'])
+mutant('P2-fault-overwritten-by-later-fault', ['C11'], [
+    (PC, "        let fault = self.fault.get_or_insert(fault).clone();\n        Err(fault)", "        self.fault = Some(fault.clone());\n        Err(fault)"),
+], ['|P2|'])
+mutant('L1-validate-takes-TR-before-TS', ['C05'], [
+    (S, "        let mut tx_state = self.tx_states[txid].lock();\n        let tx_result = self.tx_results[txid].lock();\n        if tx_state.status != TransactionStatus::Validating {", "        let tx_result = self.tx_results[txid].lock();\n        let mut tx_state = self.tx_states[txid].lock();\n        if tx_state.status != TransactionStatus::Validating {"),
+], ['|L1|'])
+mutant('L4-commit-wait-predicate-ignores-abort', ['C05'], [
+    (S, "                    !self.is_aborted() && commit_idx >= self.scheduler_ctx.finality_idx()\n", "                    commit_idx >= self.scheduler_ctx.finality_idx()\n"),
+], ['|L4|'])
+mutant('L4-next-ignores-abort', ['C05'], [
+    (S, "        while !self.scheduler_ctx.finished() && !self.is_aborted() {", "        while !self.scheduler_ctx.finished() {"),
+], ['|L4|'])
+mutant('L6-worker-without-cancel-guard', ['C05'], [
+    (S, "                    workers.push(scope.spawn(|| {\n                        let _cancel = self.cancel_on_panic();", "                    workers.push(scope.spawn(|| {\n                        let _ = self.cancel_on_panic();"),
+], ['|L6|'])
+mutant('L6-generic-panic-instead-of-payload', ['C05'], [
+    (S, "                if let Some(panic) = thread_panic {\n                    resume_unwind(panic);\n                }", "                if thread_panic.is_some() {\n                    panic!(\"scheduler thread panicked\");\n                }"),
+], ['|L6|'])
+mutant('L3-stale-incarnation-returns-without-abort', ['C05'], [
+    (S, "                if !history_published {\n                    self.abort(AbortReason::ParallelError {\n                        txid,\n                        message: \"stale beneficiary history publication\",\n                    });\n                    return None;\n                }", "                if !history_published {\n                    return None;\n                }"),
+], ['|L3|', '|B7|'])
+mutant('L7-executed-not-published-on-conflict', ['C05'], [
+    (S, "        self.scheduler_ctx.executed(txid);\n", "        if !conflict {\n            self.scheduler_ctx.executed(txid);\n        }\n"),
+], ['|L7|'])
+mutant('L2-mv-guard-live-across-reentrant-access', ['C05'], [
+    (S, "            if let Some(mut written_transactions) = self.mv_memory.get_mut(location) &&\n                let Some(entry) = written_transactions.get_mut(&txid)\n            {\n                entry.estimate = true;\n            }", "            if let Some(mut written_transactions) = self.mv_memory.get_mut(location) &&\n                let Some(entry) = written_transactions.get_mut(&txid)\n            {\n                entry.estimate = self.mv_memory.contains_key(location);\n            }"),
+], ['|L2|'])
